@@ -274,14 +274,22 @@ theorem lit_dot : ".".toList = ['.'] := by decide
 theorem elem_some_pair (m a b : Str) : List.elem (some m) [some a, some b] = [a, b].contains m := by
   simp [List.elem, List.contains]
 
+theorem elem_pair (m a b : Str) : List.elem m [a, b] = [a, b].contains m := by
+  simp [List.elem, List.contains]
+
+theorem unknown_not_plain : [("__main__".toList), ("builtins".toList)].contains "<unknown>".toList = false := by decide
+
 /-- the proof shared by the two copies of the display-name computation: split on `__module__` being a str, then on the
     membership test as an opaque Bool; `simp` does the rest whichever way the statements are arranged -/
 local macro "type_str_tac" t:ident : tactic => `(tactic| (
   obtain ⟨m, q⟩ := $t
   cases m with
-  | none => simp [List.elem, fmtOS, lit_dot]
+  | none =>
+    try simp only [Option.getD_none, elem_pair, unknown_not_plain]
+    simp [List.elem, fmtOS, lit_dot]
   | some m =>
-    simp only [Option.isSome_some, Bool.not_true, Bool.false_eq_true, if_false, elem_some_pair, lit_dot, Option.getD_some]
+    simp only [Option.isSome_some, Bool.not_true, Bool.false_eq_true, if_false, elem_some_pair, elem_pair, lit_dot,
+      Option.getD_some]
     generalize [("__main__".toList), ("builtins".toList)].contains m = b
     cases b <;> simp [fmtOS]))
 
@@ -290,6 +298,10 @@ local macro "type_str_tac" t:ident : tactic => `(tactic| (
 theorem src_type_str_eq_model (t : ExcType) : Src.tbutils.ExceptionInfo.type_str t = typeStr t := by
   unfold Src.tbutils.ExceptionInfo.type_str typeStr plainMods
   type_str_tac t
+
+example : Src.tbutils.ExceptionInfo.type_str ⟨some "pkg.mod".toList, "A.B".toList⟩ = "pkg.mod.A.B".toList := by decide
+example : Src.tbutils.ExceptionInfo.type_str ⟨some "builtins".toList, "ValueError".toList⟩ = "ValueError".toList := by decide
+example : Src.tbutils.ExceptionInfo.type_str ⟨none, "X".toList⟩ = "<unknown>.X".toList := by decide
 
 /-- **tie**: the second copy, in `format_exception_only` (from `stype = ...` up to the `issubclass` test; what
     `print_exception` prints), is the model's `typeStr` as well -/
@@ -300,10 +312,6 @@ theorem src_feo_type_str_eq_model (t : ExcType) : Src.tbutils.format_exception_o
 example : Src.tbutils.format_exception_only_type_str ⟨some "pkg".toList, "E".toList⟩ = "pkg.E".toList := by decide
 example : Src.tbutils.format_exception_only_type_str ⟨none, "E".toList⟩ = "<unknown>.E".toList := by decide
 example : Src.tbutils.format_exception_only_type_str ⟨some "__main__".toList, "E".toList⟩ = "E".toList := by decide
-
-example : Src.tbutils.ExceptionInfo.type_str ⟨some "pkg.mod".toList, "A.B".toList⟩ = "pkg.mod.A.B".toList := by decide
-example : Src.tbutils.ExceptionInfo.type_str ⟨some "builtins".toList, "ValueError".toList⟩ = "ValueError".toList := by decide
-example : Src.tbutils.ExceptionInfo.type_str ⟨none, "X".toList⟩ = "<unknown>.X".toList := by decide
 
 /-! ## _some_str -/
 
